@@ -40,6 +40,8 @@ import traceback
 VERIF = os.path.dirname(os.path.dirname(os.path.abspath(__file__)))
 LEAN_DIR = os.environ.get('VERIF_LEAN_DIR', os.path.join(VERIF, 'lean'))
 REPO = os.environ.get('VERIF_REPO', '/repo')
+if REPO not in sys.path:
+  sys.path.insert(0, REPO)   # the implementation under test is imported from this working tree
 ALLOWED_AXIOMS = {'propext', 'Classical.choice', 'Quot.sound'}
 FORBIDDEN = re.compile(
     r'\bsorry\b|\badmit\b|^\s*axiom\s|native_decide|bv_decide|implemented_by|\bunsafe\s|maxHeartbeats\s+0\b',
@@ -324,10 +326,16 @@ class Ctx:
 
 
 def load_known():
+  out = []
   p = os.path.join(VERIF, 'known_findings.json')
-  if not os.path.exists(p):
-    return []
-  return json.load(open(p)).get('findings', [])
+  if os.path.exists(p):
+    out += json.load(open(p)).get('findings', [])
+  d = os.path.join(VERIF, 'known_findings.d')   # per-work-package fragments, merged into the file above
+  if os.path.isdir(d):
+    for f in sorted(os.listdir(d)):
+      if f.endswith('.json'):
+        out += json.load(open(os.path.join(d, f))).get('findings', [])
+  return out
 
 
 def _impl_worker(args):
